@@ -1,79 +1,304 @@
+mod checks;
+mod driver;
 mod harness;
 mod interpose;
+mod oracle;
+mod scenario;
 mod sim;
+mod world;
 
 #[global_allocator]
 static GLOBAL: interpose::SimAlloc = interpose::SimAlloc;
 
-use routee_compass::app::compass::compass_app::CompassApp;
-use routee_compass::app::compass::config::compass_app_builder::CompassAppBuilder;
+use driver::{Budget, Check, Tier};
+use serde_json::{json, Value};
+use std::time::{Duration, Instant};
+
+const VERIF_DIR: &str = "/verif";
+
+fn arg_val(args: &[String], name: &str) -> Option<String> {
+    args.iter().position(|a| a == name).and_then(|i| args.get(i + 1).cloned())
+}
+
+fn real_stub_table() -> Value {
+    json!({
+        "real_code": ["routee-compass", "routee-compass-core", "routee-compass-powertrain", "rayon / rayon-core / crossbeam (work stealing, sleep, latches)",
+            "std::sync (Mutex, Condvar, Once, Arc) and std::fs / std::io", "serde_json, csv, flate2, config, chrono, kdam, smartcore, lru, ordered_hash_map"],
+        "stubbed_kernel_side_only": ["thread scheduler (token passing at futex/sched_yield/clock/file-I/O/allocation points)", "clock_gettime / gettimeofday",
+            "files under /sim/ (open/read/write/close/lseek/stat/statx)", "getrandom (hash seeds)", "stdout/stderr of simulated threads (swallowed)"]
+    })
+}
+
+fn write_evidence(check: &dyn Check, tier: Tier, seed: u64, sum: &driver::Summary, wall: f64, n_viol: usize, known: &[String]) {
+    let dir = format!("{}/evidence", VERIF_DIR);
+    let _ = std::fs::create_dir_all(&dir);
+    let runs_per_hour = if wall > 0.0 { (sum.runs as f64 / wall * 3600.0) as u64 } else { 0 };
+    let mut faults = serde_json::Map::new();
+    for (name, _) in sim::FAULT_NAMES.iter() {
+        if let Some(n) = sum.faults.get(*name) {
+            faults.insert(name.to_string(), json!(n));
+        }
+    }
+    let ev = json!({
+        "property_id": check.id(),
+        "tier": if tier == Tier::Quick { "quick" } else { "thorough" },
+        "seed": seed,
+        "level": check.level(),
+        "coverage": {
+            "evaluations": sum.runs,
+            "distinct_nontrivial": sum.signatures.len(),
+            "rule": check.rule(),
+            "samples": sum.samples,
+            "nontrivial_runs": sum.nontrivial,
+            "runs_per_family": sum.per_family,
+            "simulated_runs_per_hour": runs_per_hour,
+            "seeds_per_hour": runs_per_hour,
+            "simulated_time_covered_s": sum.sim_time_ns as f64 / 1e9,
+            "scheduling_points": sum.steps,
+            "context_switches": sum.switches,
+            "preemptions": sum.preemptions,
+            "max_simulated_threads": sum.threads_max,
+            "distinct_interleavings": sum.interleavings.len(),
+            "distinct_interleavings_measure": "distinct FNV hashes of the per-run sequence of (scheduling point index, thread switched to)",
+            "faults_injected": faults,
+            "reach_probes": sum.reach,
+            "components": real_stub_table(),
+            "known_findings_reported": known,
+            "harness_errors": sum.harness_errors.iter().map(|(s, e)| json!({"seed": s, "error": e})).collect::<Vec<_>>(),
+            "exhaustive": false
+        },
+        "assumptions": check.assumptions(),
+        "wall_s": wall,
+        "violations": n_viol
+    });
+    let path = format!("{}/{}.json", dir, check.id());
+    let _ = std::fs::write(&path, serde_json::to_string_pretty(&ev).unwrap());
+}
+
+fn cmd_check(args: &[String]) -> i32 {
+    let id = match args.get(0) {
+        Some(i) => i.clone(),
+        None => {
+            eprintln!("usage: check <ID> [--tier quick|thorough] [--seed N] [--runs N] [--wall S] [--jobs N]");
+            return 2;
+        }
+    };
+    let check = match checks::by_id(&id) {
+        Some(c) => c,
+        None => {
+            eprintln!("unknown check {}", id);
+            return 2;
+        }
+    };
+    let tier = match arg_val(args, "--tier").or_else(|| std::env::var("VERIF_TIER").ok()).as_deref() {
+        Some("thorough") => Tier::Thorough,
+        _ => Tier::Quick,
+    };
+    let seed: u64 = arg_val(args, "--seed").or_else(|| std::env::var("VERIF_SEED").ok()).and_then(|s| s.parse().ok()).unwrap_or(20260926);
+    let jobs: usize = arg_val(args, "--jobs").and_then(|s| s.parse().ok()).unwrap_or_else(|| std::thread::available_parallelism().map(|n| n.get()).unwrap_or(8).min(16));
+    let (def_runs, def_wall) = match tier {
+        Tier::Quick => (check.default_runs(Tier::Quick), 150u64),
+        Tier::Thorough => (check.default_runs(Tier::Thorough), 1500u64),
+    };
+    let runs: u64 = arg_val(args, "--runs").and_then(|s| s.parse().ok()).unwrap_or(def_runs);
+    let wall: u64 = arg_val(args, "--wall").and_then(|s| s.parse().ok()).unwrap_or(def_wall);
+    let budget = Budget { runs, wall: Duration::from_secs(wall), jobs, child_timeout: Duration::from_secs(60) };
+    println!("VERIF_SEED={} check={} tier={:?} runs<={} wall<={}s jobs={}", seed, id, tier, runs, wall, jobs);
+    let t0 = Instant::now();
+    let sum = driver::explore(check.as_ref(), tier, seed, &budget);
+    let known = driver::load_known(&format!("{}/known_findings.json", VERIF_DIR));
+    let mut reported_known: Vec<String> = vec![];
+    let mut new_violations: Vec<(scenario::Case, driver::Violation)> = vec![];
+    for (case, viol) in &sum.violations {
+        if let Some(k) = known.iter().find(|k| k.property == id && viol.class.starts_with(&k.class)) {
+            let line = format!("KNOWN-FINDING: property={} {}", id, k.what);
+            if !reported_known.contains(&line) {
+                reported_known.push(line);
+            }
+        } else if !new_violations.iter().any(|(_, v)| v.class == viol.class) {
+            new_violations.push((case.clone(), viol.clone()));
+        }
+    }
+    for l in &reported_known {
+        println!("{}", l);
+    }
+    let mut exit = 0;
+    let _ = std::fs::create_dir_all(format!("{}/replays", VERIF_DIR));
+    for (case, viol) in new_violations.iter().take(3) {
+        let (min_case, steps) = driver::minimise(check.as_ref(), case, &viol.class, Duration::from_secs(60), Duration::from_secs(if tier == Tier::Quick { 60 } else { 240 }));
+        // re-evaluate the minimised case in a fresh process for the final detail text
+        let r = driver::eval_case(check.as_ref(), &min_case, Duration::from_secs(60));
+        let detail = r.violations.iter().find(|v| v.class == viol.class).map(|v| v.detail.clone()).unwrap_or(viol.detail.clone());
+        let path = format!("{}/replays/{}-{}-{}.json", VERIF_DIR, id, case.seed, driver::fnv64(&viol.class) % 100000);
+        let file = json!({"property": id, "class": viol.class, "detail": detail, "seed": case.seed, "minimisation_steps": steps,
+            "schedule_decisions": min_case.recorded.as_ref().map(|r| r.sched.len()), "faults": min_case.recorded.as_ref().map(|r| r.faults.clone()),
+            "case": min_case});
+        let _ = std::fs::write(&path, serde_json::to_string_pretty(&file).unwrap());
+        println!("violation class={} seed={} detail={}", viol.class, case.seed, detail.chars().take(600).collect::<String>());
+        println!("VIOLATION property={} replay={}", id, path);
+        exit = 1;
+    }
+    let wall_s = t0.elapsed().as_secs_f64();
+    write_evidence(check.as_ref(), tier, seed, &sum, wall_s, new_violations.len(), &reported_known);
+    println!(
+        "runs={} nontrivial={} distinct={} interleavings={} faults={:?} sim_time={:.3}s wall={:.1}s harness_errors={}",
+        sum.runs,
+        sum.nontrivial,
+        sum.signatures.len(),
+        sum.interleavings.len(),
+        sum.faults,
+        sum.sim_time_ns as f64 / 1e9,
+        wall_s,
+        sum.harness_errors.len()
+    );
+    println!("reach={:?}", sum.reach);
+    if !sum.harness_errors.is_empty() {
+        for (s, e) in sum.harness_errors.iter().take(5) {
+            println!("HARNESS-ERROR seed={} {}", s, e.chars().take(400).collect::<String>());
+        }
+        if exit == 0 {
+            exit = 2;
+        }
+    }
+    if sum.runs == 0 && exit == 0 {
+        exit = 2;
+    }
+    exit
+}
+
+fn cmd_replay(args: &[String]) -> i32 {
+    let path = match args.get(0) {
+        Some(p) => p,
+        None => return 2,
+    };
+    let text = match std::fs::read_to_string(path) {
+        Ok(t) => t,
+        Err(e) => {
+            eprintln!("cannot read {}: {}", path, e);
+            return 2;
+        }
+    };
+    let v: Value = serde_json::from_str(&text).expect("replay file is JSON");
+    let case: scenario::Case = serde_json::from_value(v["case"].clone()).expect("replay file holds a case");
+    let class = v["class"].as_str().unwrap_or("").to_string();
+    let id = v["property"].as_str().unwrap_or("").to_string();
+    let check = checks::by_id(&id).expect("known check");
+    let r = driver::eval_case(check.as_ref(), &case, Duration::from_secs(120));
+    for viol in &r.violations {
+        println!("violation class={} detail={}", viol.class, viol.detail.chars().take(800).collect::<String>());
+    }
+    if let Some(st) = &r.stats {
+        println!("trace_hash={} sched_hash={} steps={} switches={}", st.trace_hash, st.sched_hash, st.steps, st.switches);
+    }
+    if r.violations.iter().any(|x| x.class == class) {
+        println!("VIOLATION property={} replay={}", id, path);
+        1
+    } else if let Some(e) = r.harness_error {
+        println!("HARNESS-ERROR {}", e);
+        2
+    } else {
+        println!("not reproduced: class {} did not occur", class);
+        0
+    }
+}
+
+/// run single seeds and print what happened (debugging aid)
+fn cmd_one(args: &[String]) -> i32 {
+    let id = &args[0];
+    let seed: u64 = args[1].parse().unwrap();
+    let check = checks::by_id(id).expect("known check");
+    let tier = if args.iter().any(|a| a == "thorough") { Tier::Thorough } else { Tier::Quick };
+    let fams = check.families(tier);
+    let fam = arg_val(args, "--family").unwrap_or_else(|| fams[(seed as usize) % fams.len()].to_string());
+    let fam_static = fams.iter().find(|f| **f == fam).copied().unwrap_or(fams[0]);
+    let case = check.gen(seed, fam_static, tier);
+    if args.iter().any(|a| a == "--case") {
+        println!("{}", serde_json::to_string_pretty(&case).unwrap());
+    }
+    let r = driver::eval_case(check.as_ref(), &case, Duration::from_secs(120));
+    println!("{}", serde_json::to_string_pretty(&json!({"violations": r.violations, "nontrivial": r.nontrivial, "reach": r.reach, "stats": r.stats, "sample": r.sample, "harness_error": r.harness_error})).unwrap());
+    0
+}
+
+/// determinism proof: every seed is executed twice in independent processes (and the second time
+/// while other seeds run concurrently on all cores); trace hashes must be identical.
+fn cmd_determinism(args: &[String]) -> i32 {
+    let id = &args[0];
+    let n: u64 = arg_val(args, "--seeds").and_then(|s| s.parse().ok()).unwrap_or(200);
+    let base: u64 = arg_val(args, "--seed").and_then(|s| s.parse().ok()).unwrap_or(1);
+    let jobs: usize = arg_val(args, "--jobs").and_then(|s| s.parse().ok()).unwrap_or(16);
+    let check = checks::by_id(id).expect("known check");
+    let tier = if args.iter().any(|a| a == "thorough") { Tier::Thorough } else { Tier::Quick };
+    let fams = check.families(tier);
+    let mut pipes = vec![];
+    for k in 0..jobs {
+        let mut fds = [0i32; 2];
+        unsafe { libc::pipe(fds.as_mut_ptr()) };
+        let pid = unsafe { libc::fork() };
+        if pid == 0 {
+            let mut out = String::new();
+            let mut i = k as u64;
+            while i < n {
+                let seed = base + i;
+                let fam = fams[(seed as usize) % fams.len()];
+                let case = check.gen(seed, fam, tier);
+                let a = driver::eval_case(check.as_ref(), &case, Duration::from_secs(120));
+                let b = driver::eval_case(check.as_ref(), &case, Duration::from_secs(120));
+                // third execution: explicit replay of the recorded decisions
+                let mut c2 = case.clone();
+                c2.recorded = a.recorded.clone();
+                let c = driver::eval_case(check.as_ref(), &c2, Duration::from_secs(120));
+                let h = |r: &driver::ChildResult| r.stats.as_ref().map(|s| (s.trace_hash, s.steps, s.switches));
+                let va = |r: &driver::ChildResult| r.violations.iter().map(|v| v.class.clone()).collect::<Vec<_>>();
+                let ok = h(&a) == h(&b) && h(&a).is_some() && va(&a) == va(&b);
+                let ok_replay = h(&a) == h(&c) && va(&a) == va(&c);
+                out.push_str(&format!("{} {} {} {:?} {:?} {:?}\n", seed, ok, ok_replay, h(&a), h(&b), h(&c)));
+                i += jobs as u64;
+            }
+            sim::raw_write_fd(fds[1], out.as_bytes());
+            unsafe { libc::_exit(0) };
+        }
+        unsafe { libc::close(fds[1]) };
+        pipes.push((fds[0], pid));
+    }
+    let mut bad = 0;
+    let mut total = 0;
+    for (rfd, pid) in pipes {
+        use std::io::Read;
+        use std::os::unix::io::FromRawFd;
+        let mut f = unsafe { std::fs::File::from_raw_fd(rfd) };
+        let mut text = String::new();
+        let _ = f.read_to_string(&mut text);
+        let mut status = 0;
+        unsafe { libc::waitpid(pid, &mut status, 0) };
+        for line in text.lines() {
+            total += 1;
+            let parts: Vec<&str> = line.split(' ').collect();
+            if parts.get(1) != Some(&"true") || parts.get(2) != Some(&"true") {
+                bad += 1;
+                println!("NONDETERMINISTIC {}", line);
+            }
+        }
+    }
+    println!("determinism: {} seeds x (2 seeded executions + 1 explicit replay), {} divergent", total, bad);
+    if bad > 0 || total == 0 {
+        1
+    } else {
+        0
+    }
+}
 
 fn main() {
-    let seed: u64 = std::env::args().nth(1).and_then(|s| s.parse().ok()).unwrap_or(1);
-    let workers: usize = std::env::args().nth(2).and_then(|s| s.parse().ok()).unwrap_or(4);
-    let mut cfg = sim::SimCfg::default();
-    cfg.alloc_every = 8;
-    cfg.faults = sim::F_SHORT_WRITE | sim::F_EINTR_WRITE;
-    cfg.io_fault_rate = 0.2;
-    let dec = sim::Decider::from_seed(seed);
-    let t0 = std::time::Instant::now();
-    let out = harness::run_in_sim(cfg, dec, 2, move || {
-        sim::with(|s| {
-            s.put_file("/sim/edges.csv", b"edge_id,src_vertex_id,dst_vertex_id,distance\n0,0,1,175381\n1,0,2,772320\n2,1,2,707960\n".to_vec());
-            s.put_file("/sim/vertices.csv", b"vertex_id,x,y\n0,-105.1683038,39.7379033\n1,-104.8086039,41.1475252\n2,-111.9095014,40.7607176\n".to_vec());
-            s.put_file("/sim/config.toml", b"x".to_vec());
-            s.put_file("/sim/speeds.txt", b"112.0\n64.36\n112.0\n".to_vec());
-            s.put_file("/sim/geoms.txt", b"LINESTRING (-105.1683038 39.7379033, -104.8086039 41.1475252)\nLINESTRING (-105.1683038 39.7379033, -111.9095014 40.7607176)\nLINESTRING (-104.8086039 41.1475252, -111.9095014 40.7607176)\n".to_vec());
-        });
-        let conf = r#"
-parallelism = 4
-response_persistence_policy = "persist_response_in_memory"
-[response_output_policy]
-type = "file"
-filename = "/sim/out.json"
-format = { type = "json", newline_delimited = true }
-[graph]
-edge_list_input_file = "/sim/edges.csv"
-vertex_list_input_file = "/sim/vertices.csv"
-verbose = false
-[traversal]
-type = "speed_table"
-speed_table_input_file = "/sim/speeds.txt"
-speed_unit = "kilometers_per_hour"
-output_time_unit = "hours"
-[cost]
-cost_aggregation = "sum"
-[cost.weights]
-distance = 0
-time = 1
-[cost.vehicle_rates.time]
-type = "raw"
-[cost.vehicle_rates.distance]
-type = "raw"
-[plugin]
-input_plugins = []
-output_plugins = [ { type = "summary" }, { type = "traversal", route = "edge_id", geometry_input_file = "/sim/geoms.txt" } ]
-"#;
-        let builder = CompassAppBuilder::default();
-        let app = CompassApp::try_from_config_toml_string(conf.to_string(), "/sim/config.toml".to_string(), &builder).expect("build app");
-        let pool = harness::make_pool(workers);
-        let queries: Vec<serde_json::Value> = (0..20).map(|i| serde_json::json!({"origin_vertex": i % 3, "destination_vertex": (i + 1 + i / 3) % 3, "id": i})).collect();
-        sim::set_quiet(false);
-        let res = pool.install(|| app.run(queries, None));
-        sim::set_quiet(true);
-        drop(pool);
-        res.map_err(|e| e.to_string())
-    });
-    let dt = t0.elapsed();
-    let s = &out.sim;
-    match &out.result {
-        Ok(Ok(v)) => println!("responses: {}", v.len()),
-        other => println!("result: {:?}", other.as_ref().map(|_| ())),
-    }
-    let f = s.get_file("/sim/out.json").unwrap_or(b"");
-    let text = String::from_utf8_lossy(f);
-    let ids: Vec<String> = text.lines().map(|l| serde_json::from_str::<serde_json::Value>(l).map(|v| v["request"]["id"].to_string()).unwrap_or("BAD".into())).collect();
-    println!("file order: {}", ids.join(","));
-    println!("stats: {}", serde_json::to_string(&s.stats).unwrap());
-    println!("wall: {:?}", dt);
+    let args: Vec<String> = std::env::args().skip(1).collect();
+    let code = match args.get(0).map(|s| s.as_str()) {
+        Some("check") => cmd_check(&args[1..]),
+        Some("replay") => cmd_replay(&args[1..]),
+        Some("one") => cmd_one(&args[1..]),
+        Some("determinism") => cmd_determinism(&args[1..]),
+        _ => {
+            eprintln!("usage: compass-sim check|replay|one|determinism ...");
+            2
+        }
+    };
+    std::process::exit(code);
 }
